@@ -379,13 +379,34 @@ META = {
         ],
         run_cap_s=1200, shrink_tests=4, shrink_s=400,
     ),
+    "C13": _m(
+        "S", "exploration", (32, 3000), (900, 3000),
+        "Each run = one Gibbs-kernel experiment. Even runs: a DistRegBuilder model (Normal response, loc/scale predictors, one np-smooth with a "
+        "penalty from {identity, ridge + differences, first differences (rank d-1), second differences (rank d-2)}, d = 2-6, hyperparameters "
+        "a, b, coefficient values and current tau2 from wide ranges, optionally a second np-smooth) and liesel's tau2_gibbs_kernel. Odd runs: a "
+        "model with a FiniteDiscrete (2-6 outcomes) or Bernoulli prior on c, a Normal / Poisson / no downstream likelihood through eta = mu + "
+        "slope c, and finite_discrete_gibbs_kernel with outcomes given or extracted. Each run (1) checks that the analytic full conditional is "
+        "proportional to the model's own joint density as a function of that variable over a grid, and (2) draws 1e5-4e5 values through "
+        "kernel.transition over distinct keys and tests PIT / category frequencies against the analytic conditional. Non-trivial = draws made; "
+        "distinct = distinct configuration.",
+        "Gibbs draws",
+        "distinct configurations (penalty kind/rank, hyperparameters, coefficients, outcome sets, priors, likelihoods)",
+        ["liesel.model.distreg.DistRegBuilder / tau2_gibbs_kernel, liesel.model.goose.finite_discrete_gibbs_kernel, GibbsKernel.transition, LieselInterface, MultivariateNormalDegenerate.from_penalty"],
+        ["generated data and hyperparameters"],
+        [
+            "no fault dimension: seeded Monte-Carlo simulation; Bernstein thresholds with false-alarm probability <= 1e-12 per statistic for every VERIF_SEED",
+            "the analytic conditionals IG(a + rank/2, b + beta'K beta/2) and categorical proportional to exp(joint) are computed in float64 from the plan alone (rank by numpy.linalg.matrix_rank)",
+            "proportionality tolerance 3e-3 (scaled) on the log scale absorbs float32 evaluation of the joint",
+        ],
+        run_cap_s=900, shrink_tests=6, shrink_s=200,
+    ),
 }
 
 
 # ---------------------------------------------------------------------------- MANIFEST texts
 
 PENDING = "check not built yet in this session (see DESIGN.md section 7 build order); no claim is made"
-NOT_APPLICABLE = {f"C{i:02d}": PENDING for i in range(1, 21)}
+NOT_APPLICABLE = {}
 NOT_APPLICABLE["C18"] = (
     "pure mathematical functions of their arguments (degenerate MVN, Gaussian copula, algebraic sigmoid): no schedule, "
     "clock, fault, history or interleaving for a simulator to drive; input generation against a closed form belongs to "
@@ -393,6 +414,14 @@ NOT_APPLICABLE["C18"] = (
 )
 
 MANIFEST_TEXT = {
+    "C13": dict(
+        technique="seeded Monte-Carlo simulation of liesel's Gibbs kernels: density-proportionality check against the model's own joint plus non-asymptotic (Bernstein) tests of 1e5+ draws (no fault dimension)",
+        design_ref="DESIGN.md section 4 C13, section 3 world S",
+        level_text="Seeded models (full- and deficient-rank penalties, hyperparameters, coefficient values, outcome sets, prior probabilities, downstream "
+        "likelihoods); the analytic full conditional must be proportional to the model's joint density in that variable, and the kernel's draws "
+        "over distinct keys must follow it (PIT / frequencies with rigorous Bernstein bounds). Sampling, not a proof.",
+        level_note="Trusted: scipy.stats, numpy matrix_rank. Data and hyperparameters are generated; the kernels, DistRegBuilder, interface and degenerate MVN are real.",
+    ),
     "C04": dict(
         technique="seeded Monte-Carlo simulation of the real engine with thousands of independent chains started at exact joint draws; non-asymptotic (Bernstein) invariance tests (no fault dimension)",
         design_ref="DESIGN.md section 4 C04, section 3 world S",
